@@ -152,6 +152,27 @@ def generate(ctx):
                 if isinstance(x, list): return [recase(e) for e in x]
                 return x
             add(v, recase(v), 0, False, 'recased-keys'); add(v, recase(v), 1, False, 'recased-keys')
+    # strict sub-objects in both argument orders: one member of an object (anywhere in the tree) removed at EVERY position — an extra
+    # member at the front or in the middle of the other operand must be noticed just like one at the end, in either direction
+    def objects_in(x, path=()):
+        if isinstance(x, Obj):
+            yield path
+            for i, (_, e) in enumerate(x): yield from objects_in(e, path + (i,))
+        elif isinstance(x, list):
+            for i, e in enumerate(x): yield from objects_in(e, path + (i,))
+    def at(x, path):
+        for i in path: x = x[i][1] if isinstance(x, Obj) else x[i]
+        return x
+    for i in range(40 if quick else 400):
+        cs = rng.choice([1, 0])
+        v = rand_json_value(rng, depth=rng.choice([1, 2, 3]), keys=CKEYS)
+        if not isinstance(v, Obj): v = Obj([('host', v), ('port', 1), ('user', [v])])
+        for path in list(objects_in(v))[:6]:
+            o = at(v, path)
+            for j in range(len(o)):
+                w = copy.deepcopy(v); del at(w, path)[j]
+                add(w, v, cs, False, 'sub-object'); add(v, w, cs, False, 'sub-object')
+                ws = copy.deepcopy(w); rng.shuffle(at(ws, path)); add(ws, v, cs, False, 'sub-object')
     for v in [None, 1, Invalid(), Raw('x'), 'x', Obj(), []]:
         add('NULLARG', v, 1, False, 'null-arg'); add(v, 'NULLARG', 1, False, 'null-arg'); add(v, Invalid(), 1, False, 'invalid')
         add(Invalid(), Invalid(), 1, True, 'invalid-same')
